@@ -1,4 +1,4 @@
-\* Documentation only (not run by the check): the target's tunnel connection left in the ClientRegistry,
+\* Documentation only (not run by the check): the target's tunnel connection (joined through handleExistingBridge) left in the ClientRegistry (RegLegs = {"T"}),
 \* against NoSpontaneousEnd.  TLC reports: Attach("pkt"), Hold - the sweeper closes the leg's stream,
 \* the t2s copier ends and the bridge closes with both ends open.
 CONSTANTS
@@ -17,7 +17,10 @@ CONSTANTS
   DevWriteLock = FALSE
   DevRouteFirst = FALSE
   DevCleanupFirst = FALSE
-  DevLegRegistered = TRUE
+  RegLegs = {"T"}
+  DevIdleSweep = FALSE
+  DevFwdNoEof = FALSE
+  SrcKinds = {"direct"}
   DevBufio = FALSE
   AttachKinds = {"pkt"}
   HoldOn = TRUE
